@@ -87,6 +87,8 @@ class Net (object):
         from pox.lib.packet.ethernet import ethernet
         ent = st.sw.table.entry_for_packet(ethernet(raw=frame), port)
         kind = None if ent is None else ("drop" if not ent.actions else "fwd")
+        # a lookup must only ever return an entry that is installed right now
+        if ent is not None and not any(e is ent for e in st.sw.table.entries): kind = "phantom"
       except Exception:
         kind = None
       st.rx(frame, port)
